@@ -140,8 +140,8 @@ K('C04.a2.sel', property='C04', engine='symex', harness='C04/covmat.cpp',
 for _dt in (1, 2):
     K('C04.m.%d' % _dt, property='C04', engine='symex', harness='C04/migball.cpp', entry='k_migrate_ball',
       tus=['src/Calculators/CalcMigrate.cpp', 'src/Db/Db.cpp', 'src/Tree/Ball.cpp', 'src/Basic/Utilities.cpp', 'src/Basic/AStringable.cpp'],
-      defines={'all': {'VF_DT': _dt, 'VF_ND': 2}, 'quick': {'VF_NS': 3, 'VF_NT': 2}, 'thorough': {'VF_NS': 4, 'VF_NT': 3}},
-      bounds={'quick': '3 sources, 2 targets (thorough: 4 and 3) in 2-D on the integer grid |x| <= 1024, every mask pattern of the targets, dmax > 0 per direction, distance type %d, '
+      defines={'all': {'VF_DT': _dt, 'VF_ND': 2}, 'quick': {'VF_NS': 3, 'VF_NT': 2}, 'thorough': ({'VF_NS': 4, 'VF_NT': 3} if _dt == 1 else {'VF_NS': 3, 'VF_NT': 2})},  # L2 at 4 x 3: no verdict within 9 min (division by symbolic dmax), not claimed
+      bounds={'quick': '3 sources, 2 targets (thorough: 4 and 3 for distance type 1, unchanged for type 2) in 2-D on the integer grid |x| <= 1024, every mask pattern of the targets, dmax > 0 per direction, distance type %d, '
                        'every answer of the tree (any source rank per distinct target position)' % _dt},
       timeout_ms={'quick': 100000, 'thorough': 600000}, validate={'quick': 50, 'thorough': 100}, validate_doubles='int',
       what='CalcMigrate::_expandPointToPointBall + st_larger_than_dmax with the real Db::hasSameDimension: an active target receives the value of the source the tree returns for its own coordinates '
